@@ -57,6 +57,52 @@ theorem C19_int64_fixed :
     parseCellValue Arith.id (cellPieces (formatAtoms (.int64 834197))) btSint64 false false Csv.f64One 0 [] = .ok (.int64 834197) := by
   decide +kernel
 
+/-! ## tables -/
+
+/-- **The regenerated tables are consistent**: on every listed message number below the manufacturer range the CSV
+reader's name table inverts `MesgNum.String()`; for every field of every profile message the reader's field table maps
+the name back to the number and the factory returns the field for that number; no name is empty or looks like
+"unknown…"; no sint32 field has units "degrees"; no float field has a scale. Decided by kernel evaluation over
+`Generated/CsvProfile.lean` (≈ 1600 fields) — re-checked whenever the profile, `MesgNum.String()` or `lookup_gen.go` change. -/
+theorem C19_tables : mesgTableOK = true ∧ fieldTableOK = true := ⟨mesgTableOK_true, fieldTableOK_true⟩
+
+/-! ## fields, messages, files -/
+
+/-- **A known field survives the round trip through its cell** (raw mode, or a field without scale/offset; no position
+in degrees; no sub-field substitution; a scalar): the reader finds the field by the name the writer printed, with the
+writer's base type, and parses the value back. -/
+theorem C19_field_roundtrip_raw (ar : Arith) (o : Opts) (ds : List Desc) (msg : Message) (fld : Field) (pm : PMesg) (p : PField)
+    (hpm : pm ∈ profile) (hnum : pm.num = msg.num) (hn : msg.num < mfgRangeMin) (hp : p ∈ pm.fields)
+    (hfn : fieldNumOf fld = p.num) (hdeg : o.degrees = false) (hraw : o.raw = true ∨ isScaledField p.scale p.offset = false)
+    (hsub : substitute msg.fields p.subs = none) (harr : p.array = false) (hv : scalarOK p.bt p.isBool fld.value = true) :
+    readCell ar ds msg.num (writeField o msg fld) = .ok (.field (mkField p.num p.bt (csvNormS fld.value))) :=
+  field_rt ar o ds msg fld pm p hpm hnum hn hp hfn hdeg hraw hsub harr hv
+
+/-- the full statement of the round trip: every chain of files within `CsvUnambiguous` comes back as the expected
+messages (arrays, sub-field substitution, unknown messages and fields with verbose, developer fields, and — under the
+arithmetic hypothesis `Arith.id` — scaled values), in as many sequences as files. Proved below for the class of
+`PlainMesg` files; the rest of the class is tied by the correspondence and the property predicate of family `csv`. -/
+def C19_roundtrip_full : Prop :=
+  ∀ (o : Opts) (files : List (List Message)), files ≠ [] → csvUnambiguousB o files = true →
+    fromCsvPre Arith.id (toCsv o files) = .ok ⟨expected o files, files.length⟩
+
+/-- **FIT → CSV → FIT gives the messages back, file by file** — for chains of files that start with their only file_id
+and consist of `PlainMesg` messages (listed message numbers, no developer fields, scalar fields without sub-field
+substitution, written raw or without scale/offset): the reader returns exactly as many sequences as there were files
+(`C19_sequences` for this class) and each sequence is the file's messages, every field with its number, base type and
+value (`normMesg`). Any number of files, messages and fields. -/
+theorem C19_raw_roundtrip_partial (ar : Arith) (o : Opts) (hdeg : o.degrees = false) (files : List (List Message))
+    (hne : files ≠ []) (hshape : ∀ f ∈ files, FileShape f) (hplain : ∀ f ∈ files, ∀ m ∈ f, PlainMesg o m) :
+    fromCsvPre ar (toCsv o files) = .ok ⟨files.map (·.map normMesg), files.length⟩ :=
+  fromCsvPre_plain ar o hdeg files hne hshape hplain
+
+/-- **Chained inputs come back as the same number of sequences** (same class) -/
+theorem C19_sequences_partial (ar : Arith) (o : Opts) (hdeg : o.degrees = false) (files : List (List Message))
+    (hne : files ≠ []) (hshape : ∀ f ∈ files, FileShape f) (hplain : ∀ f ∈ files, ∀ m ∈ f, PlainMesg o m) :
+    ∃ b, fromCsvPre ar (toCsv o files) = .ok b ∧ b.seq = files.length ∧ b.seqs.length = files.length := by
+  refine ⟨_, fromCsvPre_plain ar o hdeg files hne hshape hplain, rfl, ?_⟩
+  simp
+
 /-- non-vacuity: the invalid uint16 of a field with scale 1 -/
 example : parseCellValue Arith.id (cellPieces (formatAtoms (.uint16 65535))) btUint16 false false Csv.f64One 0 [109] = .ok (.uint16 65535) := by
   decide +kernel
